@@ -49,6 +49,11 @@ K07 = [
     # the same object reached through a plain import and through a from-import of the same module
     (sk("k11_plain_and_from_import_of_one_module", "import pc\nfrom pc import ns\nfrom pc import ns as {0}\n{1} = ns.x + pc.ns.x + {0}.x\nprint({1})\n", {"pc.py": "class ns:\n    x = 42\n"}),
      ["froms_to_imports", "organize_imports"]),
+    # imports whose use is not an ordinary name read in the same module
+    (sk("k12_future_import", "from __future__ import annotations\nfrom pa import aa as {0}\ndef fun(x: Later) -> int:\n    return {0}\nclass Later:\n    pass\nprint(fun(None))\n"), ["froms_to_imports", "organize_imports"]),
+    (sk("k13_used_only_as_default_of_same_name", "import pa\nimport pb as {0}\ndef fun(pa=pa):\n    return pa.aa\nprint(fun(), {0}.cc)\n"), ["organize_imports"]),
+    (sk("k14_exported_through_tuple_all", "from mod import *\nprint(aa, {0})\n", {"mod.py": "from pa import aa, bb\n{0} = 3\n__all__ = (\"aa\", \"{0}\")\n"}), ["organize_imports@mod.py"]),
+    (sk("k15_reexport_in_package_init", "from pkg2 import aa\nimport pkg2\nprint(aa, pkg2.{0})\n", {"pkg2/__init__.py": "from pa import aa\nfrom pa import bb as {0}\n"}), ["organize_imports@pkg2/__init__.py"]),
     # several names in one relative from-import (split_imports rebuilds one statement per name), with a
     # top-level module of the same name that an absolute import would reach instead; one unused name
     (sk("k10_relative_multi_name", "import app.user\n", {
